@@ -591,7 +591,7 @@ type c13WireCli struct {
 	mqtt.Client
 	base *mqtt.BaseClient
 	conn *c13WireConn
-	urs  [][2]int
+	urs  [][3]int
 	n    int
 }
 
@@ -609,8 +609,9 @@ func (w *c13WireCli) Ping(ctx context.Context) error {
 	return err
 }
 
-// c13RunWire: per ping j, urs[j] = (unsolicited PINGRESPs before its PINGREQ, PINGRESPs after it).
-func c13RunWire(interval, timeout time.Duration, urs [][2]int) (c13Obs, error) {
+// c13RunWire: per ping j, urs[j] = (unsolicited PINGRESPs before its PINGREQ, PINGRESPs consumed by the
+// reader before the write of the PINGREQ returns, PINGRESPs queued after that).
+func c13RunWire(interval, timeout time.Duration, urs [][3]int) (c13Obs, error) {
 	par := c13NewParent(false)
 	var mu sync.Mutex
 	var starts []int64
@@ -638,6 +639,16 @@ func c13RunWire(interval, timeout time.Duration, urs [][2]int) (c13Obs, error) {
 			mu.Unlock()
 			var burst []byte
 			for k := 0; k < urs[i][1]; k++ {
+				burst = append(burst, 0xD0, 0)
+			}
+			if len(burst) > 0 {
+				// zero-delay peer: the reader has consumed and dispatched the answer before
+				// Transport.Write of the PINGREQ returns
+				c.send(burst)
+				c.waitReaderIdle(2 * time.Second)
+			}
+			burst = nil
+			for k := 0; k < urs[i][2]; k++ {
 				burst = append(burst, 0xD0, 0)
 			}
 			if len(burst) > 0 {
@@ -1136,7 +1147,7 @@ type c13Job struct {
 	timeout  time.Duration
 	outs     []c13Out
 	steps    []c13Step
-	urs      [][2]int
+	urs      [][3]int
 	custom   bool
 	seed     int64
 	obs      c13Obs
@@ -1166,7 +1177,7 @@ func (j *c13Job) coq() string {
 	var sc []string
 	if j.fam == "wire" {
 		for _, ur := range j.urs {
-			sc = append(sc, fmt.Sprintf("(%s,%s)", cNat(ur[0]), cNat(ur[1])))
+			sc = append(sc, fmt.Sprintf("(%s,%s,%s)", cNat(ur[0]), cNat(ur[1]), cNat(ur[2])))
 		}
 	} else if j.fam == "env" {
 		for _, s := range j.steps {
@@ -1184,7 +1195,7 @@ func (j *c13Job) desc() map[string]interface{} {
 	var sc []string
 	if j.fam == "wire" {
 		for _, ur := range j.urs {
-			sc = append(sc, fmt.Sprintf("%d unsolicited PINGRESP, PINGREQ, %d PINGRESP", ur[0], ur[1]))
+			sc = append(sc, fmt.Sprintf("%d unsolicited PINGRESP, PINGREQ, %d PINGRESP consumed before Write returns, %d PINGRESP after", ur[0], ur[1], ur[2]))
 		}
 	} else if j.fam == "env" {
 		for _, s := range j.steps {
@@ -1428,20 +1439,34 @@ func runC13(cfg *runCfg) error {
 
 	// ---- wire: real BaseClient, peer sends surplus PINGRESPs (duplicates with an answer,
 	// unsolicited ones between two pings), then stays silent or keeps answering
-	addWire := func(urs [][2]int) {
+	addWire := func(urs [][3]int) {
 		j := &c13Job{fam: "wire", interval: 2 * ms, urs: urs, timeout: c13LongTO}
+		zero := false
 		for _, ur := range urs {
-			if ur[1] == 0 {
+			if ur[1] > 0 {
+				zero = true
+			}
+		}
+		for _, ur := range urs {
+			if ur[1]+ur[2] == 0 {
 				j.timeout = 300 * ms
+				if zero {
+					// with a zero-delay answer the writer may be held in Write while the reader
+					// works: keep the timeout far from anything load can produce
+					j.timeout = 2 * time.Second
+				}
 				break
 			}
 		}
 		jobs = append(jobs, j)
 	}
-	for _, urs := range [][][2]int{
-		{{0, 1}, {0, 0}}, {{0, 2}, {0, 0}}, {{0, 1}, {1, 0}}, {{0, 1}, {3, 0}}, {{1, 0}}, {{2, 1}, {0, 0}},
-		{{2, 1}, {0, 1}, {1, 0}}, {{0, 3}, {2, 1}, {1, 0}}, {{0, 1}, {1, 1}, {1, 1}, {1, 0}}, {{0, 2}, {1, 1}, {1, 2}},
-		{{0, 1}, {0, 1}, {0, 1}, {2, 0}, {0, 1}},
+	for _, urs := range [][][3]int{
+		{{0, 0, 1}, {0, 0, 0}}, {{0, 0, 2}, {0, 0, 0}}, {{0, 0, 1}, {1, 0, 0}}, {{0, 0, 1}, {3, 0, 0}}, {{1, 0, 0}}, {{2, 0, 1}, {0, 0, 0}},
+		{{2, 0, 1}, {0, 0, 1}, {1, 0, 0}}, {{0, 0, 3}, {2, 0, 1}, {1, 0, 0}}, {{0, 0, 1}, {1, 0, 1}, {1, 0, 1}, {1, 0, 0}}, {{0, 0, 2}, {1, 0, 1}, {1, 0, 2}},
+		{{0, 0, 1}, {0, 0, 1}, {0, 0, 1}, {2, 0, 0}, {0, 0, 1}},
+		// every PINGREQ answered with zero delay for n pings, then silence / still running
+		{{0, 1, 0}, {0, 0, 0}}, {{0, 1, 0}, {0, 1, 0}, {0, 0, 0}}, {{0, 1, 0}, {0, 1, 0}, {0, 1, 0}, {0, 1, 0}, {0, 0, 0}},
+		{{0, 1, 0}, {0, 1, 0}, {0, 1, 0}}, {{0, 1, 0}, {1, 1, 1}, {0, 2, 0}, {0, 0, 0}}, {{1, 1, 0}, {0, 0, 1}, {0, 1, 0}, {1, 0, 0}},
 	} {
 		addWire(urs)
 	}
@@ -1450,13 +1475,18 @@ func runC13(cfg *runCfg) error {
 		nWireRand = 150
 	}
 	for i := 0; i < nWireRand; i++ {
-		var urs [][2]int
+		var urs [][3]int
 		n := r.Intn(7)
 		for k := 0; k < n; k++ {
-			urs = append(urs, [2]int{r.Intn(3) * r.Intn(2), 1 + r.Intn(3)*r.Intn(2)})
+			urs = append(urs, [3]int{r.Intn(3) * r.Intn(2), r.Intn(2) * (1 + r.Intn(2)), 0})
+		}
+		for k := range urs {
+			if urs[k][1] == 0 {
+				urs[k][2] = 1 + r.Intn(3)*r.Intn(2)
+			}
 		}
 		if r.Intn(4) > 0 {
-			urs = append(urs, [2]int{r.Intn(3), 0})
+			urs = append(urs, [3]int{r.Intn(3), 0, 0})
 		}
 		addWire(urs)
 	}
@@ -1641,7 +1671,7 @@ func runC13(cfg *runCfg) error {
 	cf.result("M_sys", "c13_sys_mismatches sys_cases")
 	m.Evaluations = len(jobs) - skipped + len(sys) + 1
 	m.DistinctNontrivial = nontrivial
-	m.Rule = fmt.Sprintf("mqtt.KeepAlive driven by a scripted Client: every script up to length %d over {answered at once, answered after half an interval, never answered, failing at once with 3 different errors (two of them wrapping another context's error), parent context Canceled/DeadlineExceeded before/during the ping}, each terminal outcome after 4..%d answered pings, every one of 54 general steps (cancel before x 6 ping behaviours x cancel during) after 0-2 answered pings, %d pairs of them, %d random scripts of up to %d pings incl. non-positive interval/timeout; %d scripts against a real BaseClient over an in-memory transport with a scripted broker, %d more where the broker sends surplus PINGRESPs (duplicates, unsolicited ones between pings) before going silent; %d ReconnectClient scenarios (broker silent after k pings, also after the caller cancelled the context it passed to Connect, responsive broker soaked %s then Disconnect, peer drop followed by a healthy connection, Disconnect while a ping is unanswered); one pace run (5 answered pings at 150 ms, each must start within 500 ms of its tick, best of up to three serial tries). Non-trivial = distinct script on which the loop returned after at least 2 pings",
+	m.Rule = fmt.Sprintf("mqtt.KeepAlive driven by a scripted Client: every script up to length %d over {answered at once, answered after half an interval, never answered, failing at once with 3 different errors (two of them wrapping another context's error), parent context Canceled/DeadlineExceeded before/during the ping}, each terminal outcome after 4..%d answered pings, every one of 54 general steps (cancel before x 6 ping behaviours x cancel during) after 0-2 answered pings, %d pairs of them, %d random scripts of up to %d pings incl. non-positive interval/timeout; %d scripts against a real BaseClient over an in-memory transport with a scripted broker, %d more where the broker sends surplus PINGRESPs (duplicates, unsolicited ones between pings) or answers with zero delay (PINGRESP consumed by the reader before Transport.Write returns) before going silent; %d ReconnectClient scenarios (broker silent after k pings, also after the caller cancelled the context it passed to Connect, responsive broker soaked %s then Disconnect, peer drop followed by a healthy connection, Disconnect while a ping is unanswered); one pace run (5 answered pings at 150 ms, each must start within 500 ms of its tick, best of up to three serial tries). Non-trivial = distinct script on which the loop returned after at least 2 pings",
 		L, ns[len(ns)-1], nPairs, nRand, maxLen, nBase, nWire, len(sys), soak)
 	m.Distribution["out_scripts"] = nOutEnum
 	m.Distribution["env_scripts"] = nEnv
